@@ -921,7 +921,25 @@ class Engine(object):
             if bothint:
                 if not ctx.spec:
                     self.oblige(P, "safe.mod#%d" % self.site(), b.t != 0, "safe")
-                return [(P, Num(self.pymod(a.t, b.t), True))]
+                bs = z3.simplify(b.t)
+                if z3.is_int_value(bs):
+                    return [(P, Num(self.pymod(a.t, b.t), True))]
+                # symbolic divisor: an uninterpreted PYMOD(a, b) with its defining facts instantiated here.  z3's own
+                # non-linear mod gives every occurrence its own quotient/remainder pair and then cannot conclude
+                # x % d == y % d from x == y; with the function symbol that is plain congruence.
+                f = self.uf.get("PYMOD")
+                if f is None:
+                    f = self.uf["PYMOD"] = z3.Function("PYMOD", IntS, IntS, IntS)
+                    self.uf["PYDIV"] = z3.Function("PYDIV", IntS, IntS, IntS)
+                g = self.uf["PYDIV"]
+                r = f(a.t, b.t)
+                if not getattr(self, "quant_depth", 0):
+                    P.assume(z3.Implies(b.t > 0, z3.And(0 <= r, r < b.t)))
+                    P.assume(z3.Implies(b.t < 0, z3.And(b.t < r, r <= 0)))
+                    # (the defining product a == b * PYDIV(a, b) + r is NOT added: one non-linear term switches z3 to its
+                    #  non-linear engine for the whole query - measured 0.1 s -> 30 s+ on the enumeration loops - and no
+                    #  contract so far needs more of a symbolic-divisor remainder than its range and congruence)
+                return [(P, Num(r, True))]
             q = z3.ToReal(z3.ToInt(a.real() / b.real()))
             return [(P, Num(a.real() - q * b.real(), False))]
         if isinstance(op, ast.Pow):
@@ -1560,7 +1578,13 @@ class Engine(object):
             kinds.append("int")
         bound = [self.sym("q_" + n, k) for n, k in zip(names, kinds)]
         fr = self.new_frame(P, dict(zip(names, bound)))
-        res = self.ev(lam.body, P, ctx.child(fr))
+        # on-demand axiom instantiation (datetime theory, definitional spec functions) is switched off under a binder: an
+        # instance at a bound variable is an assumption about one arbitrary constant - useless, and it bloats the path
+        self.quant_depth = getattr(self, "quant_depth", 0) + 1
+        try:
+            res = self.ev(lam.body, P, ctx.child(fr))
+        finally:
+            self.quant_depth -= 1
         if len(res) != 1:
             raise SpecError("quantifier body forks")
         body = self.truth(res[0][1], P)
@@ -1677,6 +1701,12 @@ class Engine(object):
     def call_func(self, P, ctx, f, args, kwargs):
         qual = f.qual
         con = self.contracts.get(qual) if qual else None
+        # a caller may name a WEAKER summary of a callee for its own proof (e.g. only the callee's frame); the callee's own
+        # preconditions are then not established at that call site -> recorded as an assumption of the caller
+        over = (self.contracts.get(self.current) or {}).get("callee_contracts", {}).get(qual) if (qual and not ctx.spec) else None
+        if over is not None:
+            con = over
+            self.assume_used("call-site summary of %s inside %s (callee preconditions not established here)" % (qual, self.current))
         hook = (self.contracts.get(ctx.fname) or {}).get("ghost", {}).get("before_call:%s" % qual) if not ctx.spec else None
         if hook is not None:
             hook(self, P, ctx, args)
@@ -2163,13 +2193,29 @@ class Engine(object):
         if not isinstance(fnode, ast.Lambda):
             walk(fnode.body)
 
+    @staticmethod
+    def loop_header(st):
+        if isinstance(st, ast.For):
+            t = ast.unparse(st.target)
+            if t.startswith("(") and t.endswith(")"):
+                t = t[1:-1]
+            return "for %s in %s" % (t, ast.unparse(st.iter))
+        return "while %s" % ast.unparse(st.test)
+
     def loop_spec(self, ctx, st):
         fn = ctx.fname
         k = self.loop_ordinal(st)
         con = self.contracts.get(fn)
         spec = None
         if con is not None:
-            spec = con.get("loops", {}).get(k)
+            # a loop contract is keyed by the loop's HEADER TEXT ("for node in self._nodes", "while v is not None") when that
+            # is unique in the function - stable when other loops are added or removed - else by its static ordinal
+            hdr = self.loop_header(st)
+            spec = con.get("loops", {}).get(hdr)
+            if spec is not None:
+                k = spec.get("label", hdr)
+            else:
+                spec = con.get("loops", {}).get(k)
             extra = (self.active_case or {}).get("loops", {}).get(k) if fn == self.current else None
             if extra:
                 spec = dict(spec or {})
@@ -2195,7 +2241,7 @@ class Engine(object):
                         done.append((q, ("next",)))
                         continue
                     if n >= MAX_UNROLL:
-                        raise Unsupported("loop %d of %s needs an invariant (unwinding bound reached)" % (k, ctx.fname))
+                        raise Unsupported("loop %s of %s needs an invariant (unwinding bound reached)" % (k, ctx.fname))
                     for (r, o) in self.exec_block(st.body, q, ctx, nl):
                         if o[0] in ("next", "cont"):
                             work.append((r, n + 1))
@@ -2232,7 +2278,7 @@ class Engine(object):
                 out.extend((q, ("next",) if o[0] == "brkdone" else o) for (q, o) in states)
                 continue
             if spec is None:
-                raise Unsupported("loop %d of %s iterates a symbolic-length %r and has no invariant" % (k, ctx.fname, it))
+                raise Unsupported("loop %s of %s iterates a symbolic-length %r and has no invariant" % (k, ctx.fname, it))
             out.extend(self.cut_loop(st, p, ctx, nl, k, spec, kind="for", iterable=it))
         return out
 
@@ -2241,7 +2287,7 @@ class Engine(object):
         fn = ctx.fname
         sctx = ctx.asspec()
         invs = self.named(spec.get("inv", []))
-        idxname = spec.get("index", "_k%d" % k)
+        idxname = spec.get("index", "_k%s" % k)
         # --- iteration protocol for `for`
         lo = hi = None
         seq = None
@@ -2266,10 +2312,10 @@ class Engine(object):
             self.assign_name(P, ctx, idxname, lo, ())
         if self.debug and not self.feasible(P):
             import sys
-            sys.stderr.write("[pyvc-debug] loop %d of %s: path already infeasible when the loop is reached\n" % (k, fn))
+            sys.stderr.write("[pyvc-debug] loop %s of %s: path already infeasible when the loop is reached\n" % (k, fn))
         # --- init
         for (nm, src) in invs:
-            self.prove_spec(P, "loop%d.inv.init.%s" % (k, nm), src, sctx, "inv")
+            self.prove_spec(P, "loop%s.inv.init.%s" % (k, nm), src, sctx, "inv")
         # --- havoc
         mod_locals = set(loop_assigned(st.body)) | set(spec.get("extra_locals", []))
         if kind == "for":
@@ -2302,13 +2348,13 @@ class Engine(object):
                 H.assume(z3.And(iv.t <= lo.t, z3.Or(iv.t >= hi.t, iv.t == lo.t)))
         if self.debug and not self.feasible(H):
             import sys
-            sys.stderr.write("[pyvc-debug] loop %d of %s: infeasible right after havoc\n" % (k, fn))
+            sys.stderr.write("[pyvc-debug] loop %s of %s: infeasible right after havoc\n" % (k, fn))
         for (nm, src) in invs:
             for (p, v) in self.ev(self.parse(src), H, sctx):
                 H.assume(self.truth(v, H))
             if self.debug and not self.feasible(H):
                 import sys
-                sys.stderr.write("[pyvc-debug] loop %d of %s: infeasible after assuming invariant %s\n" % (k, fn, nm))
+                sys.stderr.write("[pyvc-debug] loop %s of %s: infeasible after assuming invariant %s\n" % (k, fn, nm))
         written_before = set(H.written)
         H.written = set()
         # --- exit path and body path
@@ -2350,17 +2396,17 @@ class Engine(object):
                             self.assign_name(r, ctx, idxname, Num(iv.t + step, True), ())
                         undeclared = {w for w in r.written if not w.startswith("py") and w not in ("$alloc", "$type")} - set(spec.get("modifies", []))
                         if undeclared:
-                            raise SpecError("loop %d of %s writes heap fields %s not in its modifies clause"
+                            raise SpecError("loop %s of %s writes heap fields %s not in its modifies clause"
                                             % (k, fn, sorted(undeclared)))
                         for (nm, src) in invs:
                             self._splits = (spec.get("preserve_splits") or {}).get(nm)
                             try:
-                                self.prove_spec(r, "loop%d.inv.preserve.%s" % (k, nm), src, sctx, "inv")
+                                self.prove_spec(r, "loop%s.inv.preserve.%s" % (k, nm), src, sctx, "inv")
                             finally:
                                 self._splits = None
                         if dec0 is not None:
                             d1 = self.ev(self.parse(spec["dec"]), r, sctx)[0][1]
-                            self.oblige(r, "loop%d.variant" % k,
+                            self.oblige(r, "loop%s.variant" % k,
                                         z3.And(self.num(dec0).t >= 0, self.num(d1).t < self.num(dec0).t), "variant")
                     elif o[0] == "brk":
                         r.written = written_before | r.written | set(spec.get("modifies", []))
